@@ -683,6 +683,21 @@ func (c *Chain) QueryCtx() sdk.Context {
 	if h.Height == 0 {
 		h.Height = 1
 	}
+	if c.App.LastBlockHeight() == 0 {
+		if c.Cfg.NoFirstBlock && !c.inBlock.Load() {
+			// nothing committed yet: the genesis state lives in the state InitChain prepared for the first block
+			var gctx sdk.Context
+			ok := func() (ok bool) {
+				defer func() { ok = recover() == nil }()
+				gctx = c.App.GetContextForFinalizeBlock(nil).WithBlockHeader(h)
+				return true
+			}()
+			if ok {
+				gc, _ := gctx.CacheContext()
+				return gc.WithBlockGasMeter(storetypes.NewInfiniteGasMeter()).WithGasMeter(storetypes.NewInfiniteGasMeter())
+			}
+		}
+	}
 	ctx := c.App.NewUncachedContext(false, h)
 	cc, _ := ctx.CacheContext()
 	return cc.WithBlockGasMeter(storetypes.NewInfiniteGasMeter()).WithGasMeter(storetypes.NewInfiniteGasMeter())
